@@ -9,5 +9,7 @@ for d in seeded/*/; do
   if ! git -C /repo apply --check "/verif/$d/patch.diff" 2>/dev/null; then echo "$n DOES-NOT-APPLY"; continue; fi
   checks=$(python3 -c "import json;print(' '.join(json.load(open('$d/meta.json')).get('caught_by_checks') or ['$pid']))")
   out=$(./seedtest.sh "/verif/$d/patch.diff" $checks 2>&1)
+  obsolete=$(python3 -c "import json;print(json.load(open('$d/meta.json')).get('obsolete_after_fix',''))")
+  if [ -n "$obsolete" ] && ! echo "$out" | grep -q VIOLATION; then echo "$n OBSOLETE (no longer breaks the property after fix $obsolete; see meta.json)"; continue; fi
   if echo "$out" | grep -q VIOLATION; then echo "$n CAUGHT by $(echo "$out" | grep -o 'property=C[0-9]*' | sort -u | tr '\n' ' ')"; else echo "$n MISSED ($checks): $(echo "$out" | tail -1 | cut -c1-120)"; fi
 done
